@@ -20,10 +20,12 @@ package raft
 //                        [--replay <artefact.json>] [--workers N]
 
 import (
+	"bytes"
 	"encoding/json"
 	"fmt"
 	"io/ioutil"
 	"os"
+	"os/exec"
 	"runtime"
 	"sort"
 	"strings"
@@ -55,6 +57,79 @@ func c20Parallel(n, workers int, fn func(i int)) {
 		}()
 	}
 	wg.Wait()
+}
+
+// c20Child runs this binary again with the given sub-command (the library
+// deliberately crashes the process on failed assertions, so everything that
+// runs real nodes is isolated).  crash is the first "panic:"/"fatal error:"
+// line of a child that died.
+func c20Child(input interface{}, args ...string) (out []byte, crash string, err error) {
+	exe, err := os.Executable()
+	if err != nil {
+		return nil, "", err
+	}
+	cmd := exec.Command(exe, args...)
+	if input != nil {
+		b, _ := json.Marshal(input)
+		cmd.Stdin = bytes.NewReader(b)
+	}
+	var stderr bytes.Buffer
+	cmd.Stderr = &stderr
+	out, err = cmd.Output()
+	if err != nil {
+		for _, line := range strings.Split(stderr.String(), "\n") {
+			if strings.HasPrefix(line, "panic: ") || strings.HasPrefix(line, "fatal error: ") {
+				crash = line
+				break
+			}
+		}
+		if crash == "" {
+			crash = "child failed: " + err.Error() + ": " + strings.TrimSpace(stderr.String()[:c20MinInt(stderr.Len(), 300)])
+		}
+		// where it happened: the first frame inside the library proper
+		for _, line := range strings.Split(stderr.String(), "\n") {
+			if strings.HasPrefix(line, "github.com/santhosh-tekuri/raft.") && !strings.Contains(line, "recoverErr") && !strings.Contains(line, ".func") && !strings.Contains(line, "raft.assert") && !strings.Contains(line, "c20") {
+				crash += " at " + strings.SplitN(strings.TrimPrefix(line, "github.com/santhosh-tekuri/raft."), "(0x", 2)[0]
+				break
+			}
+		}
+	}
+	return out, crash, err
+}
+
+func init() {
+	vkCommands["c20hsworker"] = func(args []string) int {
+		var from, to int
+		if len(args) != 2 {
+			return 2
+		}
+		fmt.Sscan(args[0], &from)
+		fmt.Sscan(args[1], &to)
+		cases := c20HSCases()
+		tw, err := c20NewTimerWorld()
+		if err != nil {
+			fmt.Fprintln(os.Stderr, err)
+			return 1
+		}
+		defer tw.close()
+		var out []*c20HSResult
+		for i := from; i < to && i < len(cases); i++ {
+			out = append(out, c20RunHSCase(cases[i], tw))
+		}
+		b, _ := json.Marshal(out)
+		os.Stdout.Write(b)
+		return 0
+	}
+	vkCommands["c20worldworker"] = func(args []string) int {
+		var wc c20WorldCase
+		if err := json.NewDecoder(os.Stdin).Decode(&wc); err != nil {
+			fmt.Fprintln(os.Stderr, err)
+			return 2
+		}
+		b, _ := json.Marshal(c20RunWorld(wc))
+		os.Stdout.Write(b)
+		return 0
+	}
 }
 
 // c20Distinct counts distinct (case class, outcome) pairs.
@@ -251,20 +326,36 @@ func c20RunHSCase(cs c20HSCase, tw *c20TimerWorld) *c20HSResult {
 
 func c20PartHandshake(ctx *c20Ctx) bool {
 	cases := c20HSCases()
-	tw, err := c20NewTimerWorld()
-	if err != nil {
-		ctx.harnessErr("hs", "timer world: %v", err)
-		return false
-	}
-	defer tw.close()
 	results := make([]*c20HSResult, len(cases))
-	var twMu sync.Mutex
-	c20Parallel(len(cases), ctx.workers, func(i int) {
-		if cases[i].Part == "timer" {
-			twMu.Lock()
-			defer twMu.Unlock()
+	const chunk = 16
+	nchunks := (len(cases) + chunk - 1) / chunk
+	runChunk := func(from, to int) (crash string) {
+		out, crash, err := c20Child(nil, "c20hsworker", fmt.Sprint(from), fmt.Sprint(to))
+		if err != nil {
+			return crash
 		}
-		results[i] = c20RunHSCase(cases[i], tw)
+		var rs []*c20HSResult
+		if err := json.Unmarshal(out, &rs); err != nil || len(rs) != to-from {
+			return fmt.Sprintf("child %d..%d: bad output (%v)", from, to, err)
+		}
+		copy(results[from:to], rs)
+		return ""
+	}
+	c20Parallel(nchunks, ctx.workers, func(ci int) {
+		from, to := ci*chunk, (ci+1)*chunk
+		if to > len(cases) {
+			to = len(cases)
+		}
+		if runChunk(from, to) == "" {
+			return
+		}
+		// a child died: run its cases one by one to find which
+		for i := from; i < to; i++ {
+			if crash := runChunk(i, i+1); crash != "" {
+				results[i] = &c20HSResult{Case: cases[i]}
+				results[i].fail("process-crashed:"+cases[i].Part+","+c20MismatchClass(cases[i].Belief, cases[i].Actual)+":"+c20Normalize(crash), "the process running %v died: %s", cases[i], crash)
+			}
+		}
 	})
 	var libCases, matchProc, mismatchProc, nohs, reused, timerResets int
 	timerFail := false
